@@ -84,6 +84,28 @@ var c10FuncsOnly = map[string]string{
 	"upstream:(setEncoder).Len":              "see set-of-sorting",
 }
 
+// Conditional drift (round 8): entries that apply only when a fact has been decided in this run.
+//
+// element-check: encoding/asn1's counting pass tests the header of every element against the element
+// type before it decodes any (`sequence tag mismatch`).  When C10.R3:element:typed holds — every
+// element the fork's element decoding accepts, with the parameters the fork really passes, has a header
+// that this test lets through — the test is implied by what follows it, and a fork without it accepts
+// the same inputs with the same values (it may report another element's error first).  Then, and only
+// then, the test may be absent from the fork: its two sites, its three conditions, and its negation in
+// the chains of the sites that follow it.  The texts are upstream's (go1.23) normal form; a toolchain
+// whose counting pass reads differently matches none of them and the difference is reported.
+var (
+	c10ElemGuardNeg   = regexp.MustCompile(`!\(\(!\(L\d+\) && \(\(\(L\d+\.class != 0\) \|\| \(L\d+\.isCompound != L\d+\)\) \|\| \(L\d+\.tag != L\d+\)\)\)\) ; `)
+	c10ElemGuardSite  = regexp.MustCompile(`^(err StructuralError\{.*sequence tag mismatch.*\}|ret ·)  WHEN  (.* ; )?!\(L\d+\) ; \(\(\(L\d+\.class != 0\) \|\| \(L\d+\.isCompound != L\d+\)\) \|\| \(L\d+\.tag != L\d+\)\) ; `)
+	c10ElemGuardItems = map[string]bool{
+		"cond sw(L1.tag)∈{22,27,20,12,18,30}":                                           true,
+		"cond sw(L1.tag)∈{24,23}":                                                       true,
+		"cond (!(L1) ∧ (((0 != L2.class) || (L3 != L2.isCompound)) || (L4 != L2.tag)))": true,
+	}
+)
+
+const c10ElemCheckReason = "encoding/asn1's counting-pass test of the element headers is implied by the element decoding that follows it (decided: element:typed) — a fork that leaves the test to the element decoding accepts the same inputs"
+
 func c10R3(r *Run, li *c10LaxInfo) {
 	r.Rule("C10.R3")
 	fork, up := r.P.Pkg("asn1"), r.P.ByPath["encoding/asn1"]
@@ -102,8 +124,7 @@ func c10R3(r *Run, li *c10LaxInfo) {
 	memo, pure := c10MemoTables(r)
 	// the elements of a SEQUENCE OF are type-checked with the parameters they are decoded with (rules_t8c10_elem.go)
 	elem := c10ElementTyping(r, li)
-	_ = elem
-	res := ForkDiff(fork, up, nil, lax, memo, pure)
+	res := ForkDiff(fork, up, nil, lax, memo, pure, elem)
 	r.Pass("upstream", "-", "compared against "+res.UpstreamDir)
 	r.Floor("same-named functions compared", res.Functions, 70)
 	for _, k := range res.SigMismatch {
@@ -130,6 +151,9 @@ func c10R3(r *Run, li *c10LaxInfo) {
 			}
 			r.Check("only-"+side+":"+k, ok, "-", "function exists on the "+side+" side only: "+why)
 		}
+	}
+	for _, k := range res.Updaters {
+		r.Pass("updater:"+k, "-", "function on the fork side only that takes one value of a struct type of the package and gives it back with some fields set to constants (`p.f = c` … `return p`): no effect and no site of its own; what it does to the value is followed field by field where the value is used (element:typed / element:params)")
 	}
 	for _, k := range res.FuncsPure {
 		r.Pass("pure-helper:"+k, "-", "function on one side only without receiver whose body only tests its integer / boolean parameters and locals for equality, copies them and returns one: it has no effect of its own; each call is evaluated as part of the decision table it stands in (compared with encoding/asn1 as a function), and a call anywhere else is a site the other side does not have")
@@ -167,6 +191,12 @@ func c10R3(r *Run, li *c10LaxInfo) {
 			}
 		}
 		s.Text = fdResort(s.Text, drop)
+		if elem.typed && s.Fn == elem.holder && !c10ElemGuardSite.MatchString(s.Text) {
+			if t := c10ElemGuardNeg.ReplaceAllString(s.Text, ""); t != s.Text {
+				s.Text = fdRenumberLocals(t)
+				used["element-check:guard"]++
+			}
+		}
 	}
 	matchedAfter := 0
 	for i := range res.OnlyUp {
@@ -207,6 +237,11 @@ func c10R3(r *Run, li *c10LaxInfo) {
 	diffs := map[string]*diff{}
 	report := func(s fdSite, side, where string) {
 		if s.match {
+			return
+		}
+		if elem.typed && side == "upstream" && s.Fn == elem.holder && c10ElemGuardSite.MatchString(s.Text) {
+			used["element-check"]++
+			allowed++
 			return
 		}
 		for _, a := range c10Allows {
@@ -257,6 +292,8 @@ func c10R3(r *Run, li *c10LaxInfo) {
 			names[a.Name] = [2]string{a.Class, a.Reason}
 		}
 	}
+	names["element-check"] = [2]string{"equivalent (decided)", c10ElemCheckReason}
+	names["element-check:guard"] = names["element-check"]
 	var ks []string
 	for k := range used {
 		ks = append(ks, k)
@@ -268,7 +305,7 @@ func c10R3(r *Run, li *c10LaxInfo) {
 	r.Pass("summary", "-", fmt.Sprintf("%d functions; %d sites identical, %d identical after drift rewrites, %d covered by drift allowances", res.Functions, res.Matched, matchedAfter, allowed))
 	// the type variables the fork dispatches on are what the rewrites claim
 	c10TypeVars(r, res.Renamed)
-	lone, emitItems := c10R3Items(r, res, up.Fset)
+	lone, emitItems := c10R3Items(r, res, up.Fset, elem)
 	// findings of the walk stated in their own words (rules_t8c10.go): a guard that only one side
 	// has (its condition found no partner) and that is decided to change the outcome
 	for _, n := range res.Notes {
@@ -413,7 +450,7 @@ var c10ItemAllows = []c10ItemAllow{
 	{"four-digits", "appendFourDigits", "fork", `asgn P1 = (P1 / 10)`, "", 1, "equivalent", "same"},
 }
 
-func c10R3Items(r *Run, res *fdResult, upFset *token.FileSet) (map[string]map[token.Pos]bool, func()) {
+func c10R3Items(r *Run, res *fdResult, upFset *token.FileSet, elem *c10Elem) (map[string]map[token.Pos]bool, func()) {
 	lone := map[string]map[token.Pos]bool{"fork": {}, "upstream": {}}
 	used := map[string]int{}
 	names := map[string][2]string{}
@@ -453,9 +490,17 @@ func c10R3Items(r *Run, res *fdResult, upFset *token.FileSet) (map[string]map[to
 	}
 	diffs := map[string]*diff{} // kind:fn
 	budget := make([]int, len(c10ItemAllows))
+	elemBudget := map[string]int{}
 	allowed := 0
 	report := func(s fdSite, side, where string) {
 		if s.match {
+			return
+		}
+		if elem != nil && elem.typed && side == "upstream" && s.Fn == elem.holder && c10ElemGuardItems[s.Text] && elemBudget[s.Text] < 1 {
+			elemBudget[s.Text]++
+			used["element-check"]++
+			names["element-check"] = [2]string{"equivalent (decided)", c10ElemCheckReason}
+			allowed++
 			return
 		}
 		for i, a := range c10ItemAllows {
